@@ -14,6 +14,7 @@ if [ -n "$VP_RUN_REPO" ]; then
 fi
 for d in seeded/${1:-*}/; do
   id=$(basename $d); det=$(jq -r .detector_property $d/meta.json)
+  if [ "$(jq -r '.retired // false' $d/meta.json)" = "true" ]; then echo "$id retired (see meta.json)"; continue; fi
   out=$(tools/trymutant.sh $V/$d/patch.diff $det 2>&1)
   line=$(echo "$out" | grep -E "^== $det" | cut -c1-60)
   top=$(echo "$out" | grep -E "oracle=" | head -1 | sed 's/^ *//' | cut -c1-120)
